@@ -8,7 +8,7 @@ S=${MUT_SUFFIX:-}
 git -C /repo worktree remove --force /tmp/repo_mut$S 2>/dev/null || true
 git -C /repo worktree add --detach /tmp/repo_mut$S HEAD -q
 mkdir -p /tmp/verif_mut$S
-rsync -a --delete --exclude .git /verif/ /tmp/verif_mut$S/
+rsync -a --delete /verif/ /tmp/verif_mut$S/
 sed -i "s#path = \"/repo/lymui\"#path = \"/tmp/repo_mut$S/lymui\"#" /tmp/verif_mut$S/harness/Cargo.toml
 sed -i "s#path = \"/repo/js-macro\"#path = \"/tmp/repo_mut$S/js-macro\"#" /tmp/verif_mut$S/harness_js/Cargo.toml
 sed -i "s#target-dir = \"/verif/.cache/harness-js-target\"#target-dir = \"/tmp/verif_mut$S/.cache/harness-js-target\"#" /tmp/verif_mut$S/harness_js/.cargo/config.toml
